@@ -361,6 +361,21 @@ struct Case {
     dead: bool,
 }
 
+/// yields to the scheduler once
+struct YieldNow(bool);
+impl Future for YieldNow {
+    type Output = ();
+    fn poll(mut self: Pin<&mut Self>, cx: &mut std::task::Context<'_>) -> std::task::Poll<()> {
+        if self.0 {
+            std::task::Poll::Ready(())
+        } else {
+            self.0 = true;
+            cx.waker().wake_by_ref();
+            std::task::Poll::Pending
+        }
+    }
+}
+
 struct StderrLog;
 impl log::Log for StderrLog {
     fn enabled(&self, _: &log::Metadata) -> bool { true }
@@ -677,11 +692,19 @@ fn main() {
                 } else {
                     None
                 };
+                // an op line may start with @<n>: the task yields n times before it calls the operation
                 let mut ops = Vec::new();
+                let mut delays = Vec::new();
                 for _ in 0..k {
                     let tt: Vec<&str> = lines[li].split_whitespace().collect();
                     li += 1;
-                    ops.push(parse_op(&tt).expect("op in par"));
+                    if tt[0].starts_with('@') {
+                        delays.push(tt[0][1..].parse::<usize>().unwrap());
+                        ops.push(parse_op(&tt[1..]).expect("op in par"));
+                    } else {
+                        delays.push(0);
+                        ops.push(parse_op(&tt).expect("op in par"));
+                    }
                 }
                 if c.dead || c.dev.is_none() {
                     outln!("par skipped");
@@ -699,7 +722,15 @@ fn main() {
                 let mut rng = Rng(seed);
                 let r = guard(|| {
                     let tasks: Vec<Pin<Box<dyn Future<Output = OpOut> + '_>>> =
-                        ops.iter().map(|op| Box::pin(run_op(dev, op)) as Pin<Box<dyn Future<Output = OpOut>>>).collect();
+                        ops.iter().zip(delays.iter()).map(|(op, dl)| {
+                            let dl = *dl;
+                            Box::pin(async move {
+                                for _ in 0..dl {
+                                    YieldNow(false).await;
+                                }
+                                run_op(dev, op).await
+                            }) as Pin<Box<dyn Future<Output = OpOut>>>
+                        }).collect();
                     run_tasks(tasks, &files, &mut rng, mode, replay.as_deref(), budget)
                 });
                 for f in &files {
